@@ -16,6 +16,13 @@ package c11
 //  G  chunking environment (chunk_test.go): 13 shapes of LARGE requests x sizes straddling 512 / 640 / 1 Ki / 4 Ki
 //     delivered through a reader that returns harness-chosen pieces: every 2-piece split, every 3- (thorough: 4-) piece
 //     split over a grid, x 2 EOF modes x 3 transports; same invocation log and canonical answer as one-piece delivery.
+//  H  whitespace runs of every length at every structural position (ws_test.go).
+//  I  typed-argument grid (args_test.go): the method table also has methods whose parameters are the type classes real
+//     juno handlers use (by-value json.Unmarshalers that refuse null - felt.Felt, a BlockID-like union -, pointers to
+//     them, validated structs, an EventArgs-like nested struct, slices / maps of those, any, bool, uint64;
+//     types_test.go); full product over the parameter positions of each type's value classes {right, wrong shapes,
+//     null, absent, zero value, validator-violating, null one level down} x spellings x document forms x 3
+//     transports x server {with, without} validator; what each type accepts is modelled in typemodel_test.go.
 // Oracle: oracle_test.go (JSON-RPC 2.0 grammar + exactly-once invocation log), JSON read by json_test.go.
 //
 // Findings on the unchanged tree (each reproduced on the real code; keys are kept specific on purpose):
@@ -41,6 +48,7 @@ import (
 	"net/http"
 	"net/http/httptest"
 	"reflect"
+	"regexp"
 	"runtime"
 	"sort"
 	"strconv"
@@ -63,6 +71,7 @@ import (
 // running one input through the real server
 
 type runner struct {
+	c    cfg
 	h    *harness
 	srv  *jsonrpc.Server
 	http *jsonrpc.HTTP
@@ -74,10 +83,12 @@ type flight struct {
 	since time.Time
 }
 
-func newRunner(poolSize int) *runner {
+func newRunner(poolSize int) *runner { return newRunnerCfg(baseCfg, poolSize) }
+
+func newRunnerCfg(c cfg, poolSize int) *runner {
 	h := &harness{}
-	s := newServer(h, poolSize)
-	return &runner{h: h, srv: s, http: jsonrpc.NewHTTP(s, log.NewNopZapLogger())}
+	s := newServerCfg(c, h, poolSize)
+	return &runner{c: c, h: h, srv: s, http: jsonrpc.NewHTTP(s, log.NewNopZapLogger())}
 }
 
 type rwPair struct {
@@ -165,22 +176,41 @@ func (b *book) merge(local map[string]int64, n int64) {
 
 // check judges one observation and records violations. Returns the outcome label.
 func (b *book) check(part, how string, input, out []byte, calls []string, problem string) string {
+	return b.checkCfg(baseCfg, "", part, how, input, out, calls, problem)
+}
+
+// prefixed: a part that knows more about its input (part I: which value class sits in which parameter) puts that in
+// front of the keys that say "the answer / the invocation is not what the model expects". Keys of other families
+// (grammar, shape, panic, empty message, the known findings matched anchored by known_findings.jsonl) name defects
+// that have nothing to do with the argument classes and keep their exact spelling.
+func prefixed(prefix, key string) string {
+	if prefix == "" || !strings.HasPrefix(key, "mismatch ") {
+		return key
+	}
+	// the prefix already names the parameter class; the method that happened to carry it stays in the detail
+	return prefix + " " + strayCallNames.ReplaceAllString(key, " stray-calls")
+}
+
+var strayCallNames = regexp.MustCompile(` stray-calls=\[[^\]]*\]`)
+
+// checkCfg is check for a server configured as c; keyPrefix (may be "") is put in front of the violation keys.
+func (b *book) checkCfg(c cfg, keyPrefix, part, how string, input, out []byte, calls []string, problem string) string {
 	det := func(v verdict) map[string]any {
 		return map[string]any{"part": part, "via": how, "input": string(input), "input_quoted": strconv.Quote(string(input)),
 			"output": string(out), "calls": calls, "why": v.detail}
 	}
 	if problem != "" {
 		kind := strings.SplitN(problem, " ", 2)[0]
-		b.r.Violate(kind+" "+strings.Fields(how)[0], map[string]any{"part": part, "input_quoted": strconv.Quote(string(input)), "via": how, "problem": problem})
+		b.r.Violate(prefixed(keyPrefix, kind+" "+strings.Fields(how)[0]), map[string]any{"part": part, "input_quoted": strconv.Quote(string(input)), "via": how, "problem": problem})
 		return kind
 	}
-	v := judge(input, out, calls, false)
+	v := judgeCfg(c, input, out, calls, false)
 	if v.key != "" {
-		b.r.Violate(v.key, det(v))
+		b.r.Violate(prefixed(keyPrefix, v.key), det(v))
 		if strings.HasPrefix(v.key, "notification-answered") {
 			// Do not let that finding mask anything else in the same document: judge again with it tolerated.
-			if v2 := judge(input, out, calls, true); v2.key != "" {
-				b.r.Violate(v2.key, det(v2))
+			if v2 := judgeCfg(c, input, out, calls, true); v2.key != "" {
+				b.r.Violate(prefixed(keyPrefix, v2.key), det(v2))
 			}
 		}
 	}
@@ -193,6 +223,9 @@ func (b *book) check(part, how string, input, out []byte, calls []string, proble
 var alphabet = []byte{'{', '}', '[', ']', '"', ':', ',', ' ', '-', '.', '0', '1', 'e', 'n', 'u', 'l', '\\', '\n', 'a', 0xff}
 
 func goodVal(p pdesc, pos, salt int) string {
+	if p.typ >= tFelt {
+		return goodTyped(p.typ, pos, salt)
+	}
 	switch p.typ {
 	case tInt, tPInt:
 		return strconv.Itoa(11*(pos+1) + salt)
@@ -204,6 +237,14 @@ func goodVal(p pdesc, pos, salt int) string {
 }
 
 func badVal(p pdesc) string {
+	switch p.typ {
+	case tAny:
+		return "false" // no JSON value is ill-typed for `any`: this is just one more value
+	case tFelt, tPFelt, tBlk, tPBlk, tBool, tU64:
+		return "[1]"
+	case tPage, tPPage, tOpts, tFilt, tPFilt, tFelts, tPages, tPageMap:
+		return "5"
+	}
 	switch p.typ {
 	case tStr:
 		return "5"
@@ -659,15 +700,19 @@ func TestCheck(t *testing.T) {
 	grid := gridInputs()
 	{
 		var nB int64
+		prod := make(chan *runner, W) // production configuration: server built WithValidator
+		for i := 0; i < W; i++ {
+			prod <- newRunnerCfg(prodCfg, 4)
+		}
 		ev.Par(len(grid), W, func(i int) {
-			x := <-runners
-			defer func() { runners <- x }()
+			x := <-prod
+			defer func() { prod <- x }()
 			local := map[string]int64{}
 			in := []byte(grid[i])
 			var ref string
 			for via := viaReader; via <= viaHTTP; via++ {
 				out, calls, prob := x.run(via, in)
-				o := b.check("B", transportName[via], in, out, calls, prob)
+				o := b.checkCfg(x.c, "", "B", transportName[via], in, out, calls, prob)
 				local[o]++
 				if via == viaReader {
 					ref = string(out)
@@ -856,6 +901,10 @@ func TestCheck(t *testing.T) {
 	partH(r, b, runners, W)
 
 	lap("H")
+	// ---- I: typed-argument grid: every value class in every parameter position (args_test.go) ----------------
+	partI(r, b, W)
+
+	lap("I")
 	// ---- evidence ------------------------------------------------------------------------------
 	r.Set("evaluations", b.evals)
 	r.Set("distinct_nontrivial", int64(len(b.outcomes)))
@@ -865,7 +914,8 @@ func TestCheck(t *testing.T) {
 		"D: same batches, every choice of the next parked handler to complete at every quiescent point (synctest), pool sizes 1.."+strconv.Itoa(maxBatch)+"; "+
 		"E: all <=1/<=2 token edits + all truncations of "+strconv.Itoa(len(editBases))+" request texts; F: positional vs named pairs; "+
 		"G: "+strconv.Itoa(len(bigShapes))+" large-request shapes x sizes G_request_sizes, each delivered through a piecewise reader: every single split offset, every 2..k-subset of a per-request offset grid, x 2 EOF modes x 3 transports, compared with one-piece delivery (which is judged by the reference model); "+
-		"H: a run of 0..H_max_run_length whitespace bytes (3 byte mixes) at every structural position of "+strconv.Itoa(len(wsBases))+" request texts x 3 transports. "+
+		"H: a run of 0..H_max_run_length whitespace bytes (3 byte mixes) at every structural position of "+strconv.Itoa(len(wsBases))+" request texts x 3 transports; "+
+		"I: for every method with parameters, the full product over its parameter positions of the value classes of each position's type (right values, every wrong JSON shape, null, absent, spelled-out zero value, validator-violating values; I_value_classes_by_type) x {positional, named (thorough: + named reversed)} x {request, notification, 2 (thorough: 5) batch arrangements} x 3 transports x server {with, without} validator. "+
 		"An outcome is the (shape, multiset of response classes, invoked methods) triple; distinct_nontrivial counts different triples observed.")
 	type kv struct {
 		K string
@@ -884,9 +934,12 @@ func TestCheck(t *testing.T) {
 	r.Sample(map[string]any{"part": "B", "example": grid[len(grid)/2]})
 	r.Sample(map[string]any{"part": "C/D", "example": batches[len(batches)/2]})
 	r.Sample(map[string]any{"part": "E", "example": "every edit of " + editBases[0]})
+	r.Sample(map[string]any{"part": "I", "example": `{"jsonrpc":"2.0","method":"xg","params":{"h":null,"id":{"block_number":5}},"id":7}`, "expect": "-32602, xg not invoked (felt.Felt refuses null)"})
 	r.Assume = append(r.Assume,
 		"encoding/json and reflect are trusted for value conversion; JSON well-formedness of inputs and outputs is decided by the harness' own RFC 8259 reader",
 		"tolerances T1..T10 listed at the top of oracle_test.go",
+		"part B runs on a server built WithValidator (as node.go builds every RPC server), part I on both configurations, parts A, C-H (plain parameter types only) on a server without one",
+		"typed parameter classes: unknown / differently-cased member names inside struct arguments, duplicate member names, felt spellings with leading zeros and numbers with fraction/exponent inside `any` are not enumerated (encoding/json conversion is trusted)",
 		"WebSocket transport not driven through a socket; HandleReadWriter, which it wraps, is driven with a message-counting writer (an empty Write is an emitted message)",
 		"part G: every Read of the piecewise reader returns >= 1 byte and never fails other than with io.EOF at the end (what net.Conn / an HTTP body does); zero-byte reads and mid-stream transport errors are not enumerated",
 		"handlers themselves do not panic and return marshalable values")
